@@ -405,6 +405,15 @@ func (s *Sim) releaseGate(g *Gate) {
 	close(g.release)
 }
 
+// Wake makes the scheduler re-evaluate its invariants and conditions at the
+// next quiescent point (used by ticker actors).
+func (s *Sim) Wake() {
+	select {
+	case s.wake <- struct{}{}:
+	default:
+	}
+}
+
 // Quiesce waits until every other goroutine in the bubble is durably blocked
 // and flushes the step log.
 func (s *Sim) Quiesce() {
